@@ -19,7 +19,7 @@ class ExecMonitor(object):
         self.on_exit = on_exit
         self.on_raise = on_raise
         self.name_of = name_of or (lambda inst: getattr(inst, "result_name", "?"))
-        self._depth = {}      # id(inst) -> nesting depth of execute on that instance
+        self._active = {}     # id(inst) -> list of wrapped functions currently active on that instance
         self._keep = {}       # id(inst) -> inst (keeps ids unique for the run)
         self.counts = {}      # command key -> number of outermost entries
         self.returned = {}    # command key -> number of normal outermost exits
@@ -54,10 +54,12 @@ class ExecMonitor(object):
 
         def execute(inst, *args, **kwargs):
             iid = id(inst)
-            d = mon._depth.get(iid, 0)
-            mon._depth[iid] = d + 1
+            active = mon._active.setdefault(iid, [])
             mon._keep[iid] = inst
-            outer = d == 0
+            # A super().execute chain enters a *different* function on the same instance (inner call);
+            # re-entering the same function on the same instance is a genuine (recursive) re-execution.
+            outer = not active or fn in active
+            active.append(fn)
             if outer:
                 key = mon.key(inst)
                 mon.instances[key] = inst
@@ -71,14 +73,14 @@ class ExecMonitor(object):
             try:
                 res = fn(inst, *args, **kwargs)
             except BaseException as exc:
-                mon._depth[iid] = d
+                active.pop()
                 if outer:
                     mon.stack.pop()
                     mon.log.emit("exec-raise", cmd=key, exc=type(exc).__name__)
                     if mon.on_raise:
                         mon.on_raise(inst, key, exc)
                 raise
-            mon._depth[iid] = d
+            active.pop()
             if outer:
                 mon.stack.pop()
                 mon.returned[key] = mon.returned.get(key, 0) + 1
